@@ -380,6 +380,103 @@ pub fn gen_for(prop: &str, class: &str, seed: u64, idx: u64) -> (StreamScenario,
     }
 }
 
+struct PeriodicChecker {
+    expected: Vec<u8>,
+    pub pos: u64,
+    pub first_bad: Option<u64>,
+}
+
+impl std::io::Write for PeriodicChecker {
+    fn write(&mut self, buf: &[u8]) -> std::io::Result<usize> {
+        let l = self.expected.len() as u64;
+        if self.first_bad.is_none() {
+            let mut off = (self.pos % l) as usize;
+            let mut i = 0;
+            while i < buf.len() {
+                let n = (buf.len() - i).min(self.expected.len() - off);
+                if buf[i..i + n] != self.expected[off..off + n] {
+                    let d = buf[i..i + n].iter().zip(&self.expected[off..off + n]).position(|(a, b)| a != b).unwrap_or(0);
+                    self.first_bad = Some(self.pos + (i + d) as u64);
+                    break;
+                }
+                i += n;
+                off = (off + n) % self.expected.len();
+            }
+        }
+        self.pos += buf.len() as u64;
+        Ok(buf.len())
+    }
+    fn flush(&mut self) -> std::io::Result<()> {
+        Ok(())
+    }
+}
+
+/// C08 counterpart of `huge_run`: stream replacement over a periodic stream
+/// beyond 4 GiB, output checked on the fly against the (periodic) in-memory
+/// replacement of one block.
+pub fn huge_replace_run(seed: u64, idx: u64, reps: u64) -> (Option<Violation>, u64, u64) {
+    let mut rng = Rng::for_run(seed, 4243, idx);
+    let r = &mut rng;
+    let pal = [b'a', b'b', b'c'];
+    let mut pats: Vec<Vec<u8>> = Vec::new();
+    for _ in 0..r.range(1, 3) {
+        let l = r.range(7, 11);
+        pats.push((0..l).map(|_| *r.pick(&pal)).collect());
+    }
+    let l: usize = 1 << 20;
+    let mut block: Vec<u8> = (0..l).map(|_| *r.pick(&pal)).collect();
+    for _ in 0..200 {
+        let p = r.pick(&pats).clone();
+        let at = r.below(l - p.len() - 1);
+        block[at..at + p.len()].copy_from_slice(&p);
+    }
+    block[l - 1] = b'\n';
+    let table: Vec<Vec<u8>> = pats.iter().enumerate().map(|(i, _)| format!("<{}>", i).into_bytes()).collect();
+    let mut opts = BuildOpts::plain();
+    opts.kind = *r.pick(&[Kind::Noncontiguous, Kind::Contiguous, Kind::Dfa]);
+    opts.prefilter = false;
+    let sut = match sut::build(&pats, &opts) {
+        Ok(s) => s,
+        Err(_) => return (None, 0, 0),
+    };
+    let expected = match sut.replace_all_bytes(&block, &table) {
+        Ok(b) => b,
+        Err(_) => return (None, 0, 0),
+    };
+    let explen = expected.len() as u64;
+    let chunk = *r.pick(&[usize::MAX, 65536, 60000, 4096]);
+    let total = reps * l as u64;
+    let mut rdr = PeriodicReader { block: std::sync::Arc::new(block), pos: 0, total, chunk, calls: 0 };
+    let mut wtr = PeriodicChecker { expected, pos: 0, first_bad: None };
+    aho_corasick::verif::set_stream_buffer_spare(None);
+    let with_closure = r.chance(1, 2);
+    let res = catch_unwind(AssertUnwindSafe(|| {
+        if with_closure {
+            sut.stream_replace_all_with(&mut rdr, &mut wtr, |m, _bytes, w: &mut &mut PeriodicChecker| {
+                use std::io::Write;
+                w.write_all(&table[m.pattern().as_usize()])
+            })
+        } else {
+            sut.stream_replace_all(&mut rdr, &mut wtr, &table)
+        }
+    }));
+    let _ = aho_corasick::verif::take_point_counts();
+    let viol = match res {
+        Err(_) => Some(Violation { class: "panic".into(), detail: "panic during huge stream replacement".into() }),
+        Ok(Err(e)) => Some(Violation { class: "spurious-error".into(), detail: format!("huge stream replacement failed: {:?}", e.kind()) }),
+        Ok(Ok(())) => {
+            if let Some(at) = wtr.first_bad {
+                Some(Violation { class: "output-mismatch".into(), detail: format!("huge stream replacement ({} x 1 MiB blocks): output differs from the periodic in-memory replacement at output byte {}", reps, at) })
+            } else if wtr.pos != explen * reps {
+                Some(Violation { class: "output-mismatch".into(), detail: format!("huge stream replacement: {} output bytes, expected {}", wtr.pos, explen * reps) })
+            } else {
+                None
+            }
+        }
+    };
+    (viol, wtr.pos, rdr.pos)
+}
+
 pub fn huge_reps(idx: u64) -> u64 {
     // 2^32 and 2^31 are crossed with margin
     [4100u64, 2060, 4200, 4100][(idx % 4) as usize]
@@ -392,7 +489,7 @@ pub fn run_job(job: &Job, progress: &dyn Fn(u64)) -> WorkerOut {
         for idx in job.from..job.to {
             progress(idx);
             let reps = huge_reps(idx);
-            let (v, matches, bytes) = huge_run(job.seed, idx, reps);
+            let (v, matches, bytes) = if job.prop == "C08" { huge_replace_run(job.seed, idx, reps) } else { huge_run(job.seed, idx, reps) };
             acc.out.scenarios += 1;
             acc.out.execs += 1;
             acc.out.stream_bytes += bytes;
@@ -408,7 +505,7 @@ pub fn run_job(job: &Job, progress: &dyn Fn(u64)) -> WorkerOut {
                     gen_class: "huge".into(),
                     class: v.class.clone(),
                     detail: v.detail.clone(),
-                    scenario: serde_json::json!({"huge": {"seed": job.seed, "idx": idx, "reps": reps}}),
+                    scenario: serde_json::json!({"huge": {"seed": job.seed, "idx": idx, "reps": reps, "replace": job.prop == "C08"}}),
                 });
             }
         }
